@@ -207,6 +207,90 @@ def _fresh_depth(t: Term) -> int:
     return 0
 
 
+class _NestNotUnderstood(Exception):
+    pass
+
+
+def _explicit_merge_nest(fi, inp: Term, pers: Term):
+    """Level summary (the form of mergeabs) of a memory -> inputs merge that is spelled out as a loop nest:
+
+        for k1, v1 in <sim>.persistent_inputs.items():
+            t1 = <inputs>.setdefault(k1, {})
+            for k2, v2 in v1.items():
+                t2 = t1.setdefault(k2, {})
+                for k3, v3 in v2.items():
+                    t2.setdefault(k3, v3)          # or: if k3 not in t2: t2[k3] = v3   /   t2[k3] = v3 (the memory wins)
+
+    None when the function has no loop over the memory's items at statement level; _NestNotUnderstood when it has one in another shape."""
+    import ast as _ast
+    if inp[0] != "var" or pers[0] != "attr":
+        return None
+
+    def is_items_of(node, pred) -> bool:
+        return isinstance(node, _ast.Call) and not node.args and isinstance(node.func, _ast.Attribute) and node.func.attr == "items" and pred(node.func.value)
+
+    def is_pers(n) -> bool:
+        return isinstance(n, _ast.Attribute) and n.attr == pers[2] and isinstance(n.value, _ast.Name) and pers[1] == ("var", n.value.id)
+
+    tops = [st for st in fi.node.body if isinstance(st, _ast.For) and is_items_of(st.iter, is_pers)]
+    if not tops:
+        return None
+    if len(tops) > 1:
+        raise _NestNotUnderstood("several loops over the memory")
+
+    def empty_dict(n) -> bool:
+        return (isinstance(n, _ast.Dict) and not n.keys) or (isinstance(n, _ast.Call) and isinstance(n.func, _ast.Name) and n.func.id == "dict" and not n.args and not n.keywords)
+
+    def setdefault_call(n, tgt: str, key: str):
+        if isinstance(n, _ast.Call) and isinstance(n.func, _ast.Attribute) and n.func.attr == "setdefault" and isinstance(n.func.value, _ast.Name) and n.func.value.id == tgt \
+                and len(n.args) == 2 and isinstance(n.args[0], _ast.Name) and n.args[0].id == key and not n.keywords:
+            return n.args[1]
+        return None
+
+    levels = []
+
+    def level(loop: _ast.For, tgt: str) -> None:
+        if not (isinstance(loop.target, _ast.Tuple) and len(loop.target.elts) == 2 and all(isinstance(x, _ast.Name) for x in loop.target.elts)) or loop.orelse:
+            raise _NestNotUnderstood(f"loop target at line {loop.lineno}")
+        k, v = (x.id for x in loop.target.elts)
+        body = [st for st in loop.body if not (isinstance(st, _ast.Expr) and isinstance(st.value, _ast.Constant))]
+        # descend: t = tgt.setdefault(k, {}) ; for k2, v2 in v.items(): ...
+        if len(body) == 2 and isinstance(body[0], (_ast.Assign, _ast.AnnAssign)) and isinstance(body[1], _ast.For):
+            a = body[0]
+            tname = a.targets[0] if isinstance(a, _ast.Assign) and len(a.targets) == 1 else getattr(a, "target", None)
+            dflt = setdefault_call(a.value, tgt, k)
+            by_ref = isinstance(dflt, _ast.Name) and dflt.id == v           # the memory's own sub-dict becomes part of the inputs
+            if isinstance(tname, _ast.Name) and dflt is not None and (empty_dict(dflt) or by_ref) and is_items_of(body[1].iter, lambda n: isinstance(n, _ast.Name) and n.id == v):
+                levels.append({"both": "recurse", "only_other": ("add", 0 if by_ref else None)})
+                level(body[1], tname.id)
+                return
+            raise _NestNotUnderstood(f"level at line {loop.lineno}")
+        # leaf
+        if len(body) == 1:
+            st = body[0]
+            if isinstance(st, _ast.Expr):
+                dflt = setdefault_call(st.value, tgt, k)
+                if isinstance(dflt, _ast.Name) and dflt.id == v:
+                    levels.append({"both": "old", "only_other": ("add", 0)})
+                    return
+            if isinstance(st, _ast.Assign) and len(st.targets) == 1 and _ast.unparse(st.targets[0]) == f"{tgt}[{k}]" and isinstance(st.value, _ast.Name) and st.value.id == v:
+                levels.append({"both": "new", "only_other": ("add", 0)})
+                return
+            if isinstance(st, _ast.If) and not st.orelse and _ast.unparse(st.test) == f"{k} not in {tgt}" and len(st.body) == 1 and isinstance(st.body[0], _ast.Assign) \
+                    and _ast.unparse(st.body[0].targets[0]) == f"{tgt}[{k}]" and isinstance(st.body[0].value, _ast.Name) and st.body[0].value.id == v:
+                levels.append({"both": "old", "only_other": ("add", 0)})
+                return
+        raise _NestNotUnderstood(f"loop body at line {loop.lineno}")
+
+    level(tops[0], inp[1])
+    # fresh levels below an added entry: every descending level creates its dict anew, the leaf stores the memory's value itself
+    n = len(levels)
+    for i, l in enumerate(levels):
+        if l["only_other"] == ("add", None):
+            l["only_other"] = ("add", n - 1 - i)
+    return levels
+
+
 def _get_input_data(ctx: Ctx, c: Collector) -> None:
     fi = ctx.func(GID)
     s = ctx.summ(GID)
@@ -313,13 +397,22 @@ def _get_input_data(ctx: Ctx, c: Collector) -> None:
                     abs_back = (e, _summ(e), T.strip(e.term[2][1]))
         except mergeabs.NotUnderstood as ex:
             abs_err = str(ex)
+    explicit_note = None
+    if not into and abs_into is None and not other_merge:
+        # the merge spelled out as a loop nest over the memory (`for eid, attrs in memory.items(): t = inputs.setdefault(eid, {}); ...`)
+        try:
+            lv_x = _explicit_merge_nest(fi, inp, pers)
+        except _NestNotUnderstood as ex:
+            lv_x, explicit_note = None, str(ex)
+        if lv_x is not None:
+            abs_into = (None, lv_x, None)
     if not into and abs_into is not None:
         e, lv, other = abs_into
         pr, pr13 = [], []
         if len(lv) != 3:
             pr.append(f"the merge helper descends {len(lv)} level(s) instead of the 3 that mosaik controls")
         else:
-            fresh0 = _fresh_depth(other)
+            fresh0 = _fresh_depth(other) if other is not None else 0
             for L, l in enumerate(lv, 1):
                 if l["only_other"] == "none":
                     pr.append(f"entries of the memory that the step inputs lack are not added on level {L}")
@@ -332,6 +425,9 @@ def _get_input_data(ctx: Ctx, c: Collector) -> None:
                     pr.append("a remembered value replaces the value that is already in the step inputs (a set_data value loses against the memory)")
         c.add("memory", GID, "persistent memory merged into the inputs (3 x merge_all, existing value wins)", VIOLATED if pr else DISCHARGED, "; ".join(pr) or f"level summary {lv}", loc)
         c.add("R13", GID, "no alias of persistent_inputs reachable from the step inputs", VIOLATED if pr13 else DISCHARGED, "; ".join(pr13), loc)
+    elif not into and explicit_note is not None:
+        c.unk("memory", GID, "persistent memory merged into the inputs (3 x merge_all, existing value wins)",
+              f"the memory is walked by an explicit loop nest that is not understood: {explicit_note}", loc)
     elif not into and other_merge:
         c.unk("memory", GID, "persistent memory merged into the inputs (3 x merge_all, existing value wins)",
               f"the memory is handed to {T.show(other_merge[0].term[1])}, a merge helper whose effect is not understood", loc)
@@ -427,7 +523,7 @@ def _get_input_data(ctx: Ctx, c: Collector) -> None:
                             pr.append("the pulled value is not cache[src_eid][src_attr]")
                         elif e.term[2][0] == "phi" and e.term[2][3] != T.NONE and e.term[2][2] != T.NONE:
                             pr.append("when the source did not produce the attribute, the value is not None: the value of the previous data-flow (another source) is delivered")
-                        tgt_full = canon(unalias(e.term[1][1], s, fi))
+                        tgt_full = canon(unalias(e.term[1][1], s, fi, at=e))
                         if not (T.contains(tgt_full, de) and T.contains(tgt_full, da) and T.contains(tgt_full, inp)):
                             pr.append("the pulled value is not stored under inputs[dest_eid][dest_attr]")
                     else:
